@@ -1,0 +1,14 @@
+//go:build verif
+
+package miner
+
+import (
+	"0chain.net/chaincore/chain"
+	"0chain.net/core/common"
+)
+
+// VerifHashNewChain returns a miner chain over c with the bounded worker that
+// ValidateTransactions runs under, for the verification harness (property C32). No logic.
+func VerifHashNewChain(c *chain.Chain) *Chain {
+	return &Chain{Chain: c, validateTxnsWithContext: common.NewWithContextFunc(1)}
+}
